@@ -41,7 +41,7 @@ def varLevelKey (lvl : Name → Option Nat) (v : Var) : Except Err Key :=
 /-- `Canonicalizer._sorted`: stable sort by the level key; a name missing from the ordering is a `KeyError` -/
 def sortVars (lvl : Name → Option Nat) (vs : List Var) : Except Err (List Var) := do
   let keyed ← vs.mapM (fun v => do pure (← varLevelKey lvl v, v))
-  pure ((sortBy (fun (a b : Key × Var) => Key.lt a.1 b.1) keyed).map (·.2))
+  pure ((sortStable (fun (a b : Key × Var) => Key.lt a.1 b.1) keyed).map (·.2))
 
 mutual
 /-- `_flatten_product` applied to every product among the given expressions (deep) -/
